@@ -26,8 +26,9 @@ def intruder(rng, ap):
 def run(ctx):
     nob, ndis, failing, files = common.obligations(ctx, PROPS)
     base = []
-    for fam, nq, nt in (("core", 80, 800), ("subslot", 60, 600), ("coredeps", 40, 400), ("limits", 30, 300), ("hours", 20, 200)):
+    for fam, nq, nt in (("core", 80, 800), ("subslot", 60, 600), ("coredeps", 40, 400), ("limits", 30, 300), ("hours", 20, 200), ("alap", 120, 1200)):
         base += gens.family(ctx, fam, ctx.n(nq, nt))
+    base += gens.prio_family(ctx, ctx.n(150, 1500))
     withx = []
     for ap in base:
         ap2 = copy.deepcopy(ap)
